@@ -217,4 +217,11 @@ def r3_single_writer(ctx: Ctx) -> None:
               "Scanner.get_position", "line = lines closed so far, column = token start relative to the line start")
 
 
-RULES = [r1_errors_carry_location, r2_position_before_newline, r3_single_writer]
+
+def rb_binding_agreement(ctx: Ctx) -> None:
+    from ..ownership import binding_agreement
+
+    binding_agreement(ctx)
+
+
+RULES = [r1_errors_carry_location, r2_position_before_newline, r3_single_writer, rb_binding_agreement]
